@@ -419,6 +419,9 @@ class Tasklet(TaskletMixin):
 
     def dependencies(self):
         yield self.base
+        if isinstance(self.f, _getitem) and isinstance(self.f.slice, (Task, Tasklet)):
+            # t[i] where the index is itself a task(let): its value is needed too
+            yield self.f.slice
     __jug_dependencies__ = dependencies
 
     def value(self):
